@@ -1,0 +1,26 @@
+//go:build verif
+
+package zcnsc
+
+// Verification hook of the staking family (/verif, check C11).  Add-only: nothing here is reachable
+// without the build tag `verif`, and no existing line of the package is changed.
+
+import (
+	cstate "0chain.net/chaincore/chain/state"
+	"0chain.net/smartcontract/stakepool/spenum"
+	"github.com/0chain/common/core/currency"
+)
+
+// VerifStakeReward pays `value` to the stake pool of an authorizer exactly as ZCNSmartContract.Mint does
+// (mint.go): getStakePool, StakePool.DistributeRewards, save.
+func VerifStakeReward(id string, value currency.Coin, ctx cstate.StateContextI) error {
+	zcn := &ZCNSmartContract{}
+	sp, err := zcn.getStakePool(id, ctx)
+	if err != nil {
+		return err
+	}
+	if err := sp.DistributeRewards(value, id, spenum.Authorizer, spenum.FeeRewardAuthorizer, ctx); err != nil {
+		return err
+	}
+	return sp.save("", id, ctx)
+}
